@@ -145,7 +145,7 @@ def cases(run: Run):
     for _ in range(run.n(300, 3000)):
         out.append({"op": "limb", "host": gen_pos(rng, 1.05, 7.0), "tgt_dir": gen_dir(rng, el=rng.uniform(-1.5, 0.3)), "graze": rng.random() < 0.4, "u": rng.random()})
     for _ in range(run.n(300, 3000)):
-        out.append({"op": "sun", "tgt": gen_pos(rng, 1.02, 7.0), "mode": rng.choice(["random", "anti-sun", "penumbra", "sunward"]), "u": rng.random(), "v": rng.random()})
+        out.append({"op": "sun", "tgt": gen_pos(rng, 1.02, 7.0), "mode": rng.choice(["random", "anti-sun", "penumbra", "sunward", "axis"]), "u": rng.random(), "v": rng.random()})
     return out
 
 
@@ -192,6 +192,9 @@ def sun_case(c):
         axis = -tgt / np.linalg.norm(tgt)
         lat = np.cross(axis, [0.12, 0.9, 0.31])
         lat /= np.linalg.norm(lat)
+        if c["mode"] == "axis":
+            # the satellite on the Earth-Sun line itself, behind the Earth: the cosine of the separation angle is 1 up to rounding
+            return tgt, axis * (au * (0.98 + 0.04 * c["u"]))
         if c["mode"] == "anti-sun":
             ang = c["u"] * 1.2
         else:
